@@ -347,8 +347,8 @@ func c04Run(c *mon.Ctx) {
 
 func init() {
 	mon.Register(&mon.Prop{
-		ID:   "C04",
-		Rule: "series of sizes {0..17, 31-34, 63-66, 255-258, 1000, 5000, 65535-65538, 70000} x 10 layouts (uniform, duplicate lattice, horizontal, vertical, all-equal, clustered with outliers, circle, +-8e307, diagonal, wide zigzag) x open/closed x {none, R-tree, quadtree} x MinPoints {1, n, n+1, 64} x query rectangles (infinite, horizontal/vertical strips through a vertex, degenerate at a vertex, quadrant midlines, vertex-spanned, disjoint, corner-touching, small windows) x stop position {1,2,3,last}; plus oracle-free comparison of predicates and of Move()d shapes against index-free shapes. Non-trivial = distinct (series, query) whose expected result is a non-empty proper subset of the segments.",
+		ID:          "C04",
+		Rule:        "series of sizes {0..17, 31-34, 63-66, 255-258, 1000, 5000, 65535-65538, 70000} x 10 layouts (uniform, duplicate lattice, horizontal, vertical, all-equal, clustered with outliers, circle, +-8e307, diagonal, wide zigzag) x open/closed x {none, R-tree, quadtree} x MinPoints {1, n, n+1, 64} x query rectangles (infinite, horizontal/vertical strips through a vertex, degenerate at a vertex, quadrant midlines, vertex-spanned, disjoint, corner-touching, small windows) x stop position {1,2,3,last}; plus oracle-free comparison of predicates and of Move()d shapes against index-free shapes. Non-trivial = distinct (series, query) whose expected result is a non-empty proper subset of the segments.",
 		Assumptions: []string{"oracle: brute force over NumSegments/SegmentAt of the index-free series with the harness' own closed-box test", "the index bytes are not decoded: a layout change that keeps Search correct must not alarm"},
 		Run:         c04Run,
 		MustSee:     []string{"indexed_RTree", "indexed_QuadTree", "unindexed", "indexed_over_65536", "early_stops", "searches_with_hits", "predicate_comparisons", "series_big"},
